@@ -221,26 +221,79 @@ static bool compare_probe(const struct probe *got, const struct probe *want, con
 
 /* ------------------------------------------------------------------ history independence */
 static const char *const HOPS[] = { "flip1", "flip7", "flip64", "gamma0.5", "gamma2.5", "geometric0.3", "std_normal",
-                                    "exponential", "alias", "loaded_dice", "terminate", "initialize-other" };
-#define NHOPS 12
+                                    "exponential", "alias", "loaded_dice", "terminate", "initialize-other",
+                                    "geometric1.0", "geometric0.7", "gamma1.0", "std_gamma2.5", "negbin2,1.0",
+                                    "chisquared1", "std_beta0.5,0.5" };
+#define NHOPS 19
+#define NVALOPS 17 /* the ops that return a value (everything but terminate / initialize-other), renumbered */
+static const int VALOP[NVALOPS] = { 0, 1, 2, 3, 4, 5, 6, 7, 8, 9, 12, 13, 14, 15, 16, 17, 18 };
 
-static void do_hist_op(int op)
+static uint64_t do_hist_op(int op)
 {
+    uint64_t r = 0;
     switch (op) {
-    case 0: (void)cmb_random_flip(); break;
-    case 1: for (int k = 0; k < 7; k++) (void)cmb_random_flip(); break;
-    case 2: for (int k = 0; k < 64; k++) (void)cmb_random_flip(); break;
-    case 3: (void)cmb_random_gamma(0.5, 1.0); break;
-    case 4: (void)cmb_random_gamma(2.5, 2.0); break;
-    case 5: (void)cmb_random_geometric(0.3); break;
-    case 6: (void)cmb_random_std_normal(); break;
-    case 7: (void)cmb_random_exponential(3.0); break;
-    case 8: (void)cmb_random_alias_sample(g_alias); break;
-    case 9: (void)cmb_random_loaded_dice(4, P4); break;
+    case 0: r = (uint64_t)cmb_random_flip(); break;
+    case 1: for (int k = 0; k < 7; k++) r = r * 2 + (uint64_t)cmb_random_flip(); break;
+    case 2: for (int k = 0; k < 64; k++) r = r * 2 + (uint64_t)cmb_random_flip(); break;
+    case 3: r = dbits(cmb_random_gamma(0.5, 1.0)); break;
+    case 4: r = dbits(cmb_random_gamma(2.5, 2.0)); break;
+    case 5: r = (uint64_t)cmb_random_geometric(0.3); break;
+    case 6: r = dbits(cmb_random_std_normal()); break;
+    case 7: r = dbits(cmb_random_exponential(3.0)); break;
+    case 8: r = (uint64_t)cmb_random_alias_sample(g_alias); break;
+    case 9: r = (uint64_t)cmb_random_loaded_dice(4, P4); break;
     case 10: cmb_random_terminate(); break;
-    default: cmb_random_initialize(0xABCDEF12345ull); break;
+    case 11: cmb_random_initialize(0xABCDEF12345ull); break;
+    case 12: r = (uint64_t)cmb_random_geometric(1.0); break;
+    case 13: r = (uint64_t)cmb_random_geometric(0.7); break;
+    case 14: r = dbits(cmb_random_gamma(1.0, 1.0)); break;
+    case 15: r = dbits(cmb_random_std_gamma(2.5)); break;
+    case 16: r = (uint64_t)cmb_random_negative_binomial(2, 1.0); break;
+    case 17: r = dbits(cmb_random_chisquared(1.0)); break;
+    default: r = dbits(cmb_random_std_beta(0.5, 0.5)); break;
     }
     vx_transition();
+    return r;
+}
+
+/* after seeding: two chosen value-returning ops (so that every cached-parameter sampler is met as the
+ * FIRST call after the seed with the same and with a different parameter than before it), their values and
+ * the next raw word, then the fixed probe */
+struct postarg { uint64_t seed; int op1, op2; uint64_t v[3]; struct probe out; };
+
+static void run_post(struct postarg *a)
+{
+    cmb_random_initialize(a->seed);
+    a->v[0] = do_hist_op(a->op1);
+    a->v[1] = do_hist_op(a->op2);
+    a->v[2] = cmb_random_sfc64();
+    run_probe(&a->out, false);
+}
+
+static void *post_thread(void *arg)
+{
+    run_post(arg);
+    return NULL;
+}
+
+static struct postarg ref_post[2][NVALOPS][NVALOPS];
+static bool ref_post_done[2][NVALOPS][NVALOPS];
+
+/* the reference for (seed, first op, second op): the same calls on a thread that never used the generator;
+ * computed when first needed, inside an execution, so that a crash there is attributed to that execution */
+static const struct postarg *post_reference(int si, int o1, int o2)
+{
+    struct postarg *a = &ref_post[si][o1][o2];
+    if (!ref_post_done[si][o1][o2]) {
+        a->seed = SEEDS[si];
+        a->op1 = VALOP[o1];
+        a->op2 = VALOP[o2];
+        pthread_t th;
+        pthread_create(&th, NULL, post_thread, a);
+        pthread_join(th, NULL);
+        ref_post_done[si][o1][o2] = true;
+    }
+    return a;
 }
 
 static void *history_thread(void *arg);
@@ -272,16 +325,27 @@ static void *history_thread(void *arg)
     }
     vx_state(h);
     const int si = vx_choose_free(2, "seed");
-    cmb_random_initialize(SEEDS[si]);
-    struct probe p;
-    run_probe(&p, false);
-    vx_outcome(vx_hash_bytes(1, p.v, sizeof(uint64_t) * (size_t)p.n));
+    const int o1 = vx_choose_free(NVALOPS, "first-op-after-seed");
+    const int o2 = vx_choose_free(NVALOPS, "second-op-after-seed");
+    struct postarg a = { .seed = SEEDS[si], .op1 = VALOP[o1], .op2 = VALOP[o2] };
+    run_post(&a);
+    vx_outcome(vx_hash_bytes(1, a.out.v, sizeof(uint64_t) * (size_t)a.out.n) ^ vx_hash_bytes(2, a.v, sizeof a.v));
     if (vx_tracing()) {
-        vx_trace("history [%s] then seed %#" PRIx64 "\n", desc, SEEDS[si]);
+        vx_trace("history [%s] then seed %#" PRIx64 " then %s, %s\n", desc, SEEDS[si], HOPS[VALOP[o1]], HOPS[VALOP[o2]]);
     }
-    /* which kind of prior op is the likely cause: for the signature only */
-    const char *cause = "after-prior-draws";
-    compare_probe(&p, &ref_full[si], "history", cause);
+    const struct postarg *want = post_reference(si, o1, o2);
+    for (int k = 0; k < 3; k++) {
+        if (a.v[k] != want->v[k]) {
+            char rule[160];
+            snprintf(rule, sizeof rule, "history:after-prior-draws:%s-after-seed:%s", k == 0 ? "first-op" : k == 1 ? "second-op" : "raw-word",
+                     k < 2 ? HOPS[VALOP[k == 0 ? o1 : o2]] : "position");
+            FAIL(rule, "after [%s], seeding with %#" PRIx64 " and calling %s, %s: value %d is %#" PRIx64 " but %#" PRIx64
+                 " on a thread that never used the generator before", desc, SEEDS[si], HOPS[VALOP[o1]], HOPS[VALOP[o2]], k,
+                 a.v[k], want->v[k]);
+            return NULL;
+        }
+    }
+    compare_probe(&a.out, &want->out, "history", "after-prior-draws");
     return NULL;
 }
 
